@@ -34,7 +34,7 @@ func ruleCfgAddr(c *Ctx, rule string) {
 	}
 	wantPort := map[string]string{"4": c.P.mustConst(c.R, pkgDHCP4, "ServerPort"), "6": c.P.mustConst(c.R, pkgDHCP6, "DefaultServerPort")}
 	wantIP := map[string]string{"4": "net.IPv4zero", "6": "net.IPv6unspecified"}
-	split := `github\.com/coredhcp/coredhcp/config\.splitHostPort(@t\d+)?\(\$1\)`
+	split := `github\.com/coredhcp/coredhcp/config\.splitHostPort(@(?:[\w$]+·)?t\d+)?\(\$1\)`
 	for _, ver := range []string{"4", "6"} {
 		ex := NewExplorer(c.P, c.Pure, fn)
 		ex.Hooks.Assume = assumeEq(2, ver)
@@ -57,7 +57,7 @@ func ruleCfgAddr(c *Ctx, rule string) {
 			to4Nil, _ := histFact(st, "nil", regexp.MustCompile(`^\(net\.IP\)\.To4\(net\.ParseIP\(`+split+`#0\)\)$`))
 			atoiOK, _ := histFact(st, "nil", regexp.MustCompile(`^strconv\.Atoi\(`+split+`#2\)#1$`))
 			errN, _ := ex.NilState(st, ret.Results[1])
-			if v, _ := histFact(st, "nil", regexp.MustCompile(`protoVersionCheck(@t\d+)?\(\$2\)$`)); v == 0 {
+			if v, _ := histFact(st, "nil", regexp.MustCompile(`protoVersionCheck(@(?:[\w$]+·)?t\d+)?\(\$2\)$`)); v == 0 {
 				return // version sanity check (dead for ver ∈ {4,6})
 			}
 			desc := fmt.Sprintf("ver=%s host-empty=%s port-empty=%s split-ok=%s parse-nil=%s to4-nil=%s atoi-ok=%s", ver, tri(hostEmpty), tri(portEmpty), tri(splitOK), tri(parseNil), tri(to4Nil), tri(atoiOK))
@@ -96,9 +96,9 @@ func ruleCfgAddr(c *Ctx, rule string) {
 				addb("success return does not return a fresh net.UDPAddr")
 				return
 			}
-			ip, _ := st.ReadLocal("new@" + al.Name() + ".IP")
-			port, _ := st.ReadLocal("new@" + al.Name() + ".Port")
-			zone, _ := st.ReadLocal("new@" + al.Name() + ".Zone")
+			ip, _ := st.ReadLocal("new@" + anm(al) + ".IP")
+			port, _ := st.ReadLocal("new@" + anm(al) + ".Port")
+			zone, _ := st.ReadLocal("new@" + anm(al) + ".Zone")
 			if splitOK != 1 {
 				addb("address accepted although host/port splitting was not checked (" + desc + ")")
 			}
@@ -157,7 +157,7 @@ func ruleCfgListen(c *Ctx, rule string) {
 	c.R.Functions[shortFn(fn)] = true
 	info := InfoOf(fn)
 	getRe := func(key string) *regexp.Regexp {
-		return regexp.MustCompile(`^\(\*github\.com/spf13/viper\.Viper\)\.Get@t\d+\(\$0\.v,fmt\.Sprintf\("server%d\.` + key + `",`)
+		return regexp.MustCompile(`^\(\*github\.com/spf13/viper\.Viper\)\.Get@(?:[\w$]+·)?t\d+\(\$0\.v,fmt\.Sprintf\("server%d\.` + key + `",`)
 	}
 	ifaceRe, listenRe := getRe("interface"), getRe("listen")
 	ex := NewExplorer(c.P, c.Pure, fn)
@@ -219,7 +219,7 @@ func ruleCfgListen(c *Ctx, rule string) {
 		}
 		// the address handed over is an element of the configured list (or of the one-element alias list)
 		a := ex.Canon(st, glaCall.Call.Args[1]).S
-		if !regexp.MustCompile(`\[\(φt\d+ \+ 1\)\]$`).MatchString(a) {
+		if !regexp.MustCompile(`\[\(φ(?:[\w$]+·)?t\d+ \+ 1\)\]$`).MatchString(a) {
 			addb("getListenAddress is not applied to the ranged element of the address list: " + shortName(a))
 		}
 		if ex.Canon(st, glaCall.Call.Args[2]).S != "$1" {
@@ -257,7 +257,7 @@ func ruleCfgListen(c *Ctx, rule string) {
 			return
 		}
 		r0 := ex.Canon(st, ret.Results[0]).S
-		isDefault := regexp.MustCompile(`config\.defaultListen(@t\d+)?\(\$1\)#0$`).MatchString(r0)
+		isDefault := regexp.MustCompile(`config\.defaultListen(@(?:[\w$]+·)?t\d+)?\(\$1\)#0$`).MatchString(r0)
 		switch {
 		case errN == 0 && both == 1 && !st.seen["gla"] && !st.seen["append"]:
 			nConflict++
@@ -324,12 +324,12 @@ func ruleCfgPlugins(c *Ctx, rule string) {
 		var bad []string
 		nS := 0
 		for _, e := range exits {
-			listNil, _ := histFact(e.St, "nil", regexp.MustCompile(`^github\.com/spf13/cast\.ToSlice(@t\d+)?\(\(\*github\.com/spf13/viper\.Viper\)\.Get@t\d+\(\$0\.v,fmt\.Sprintf\("server%d\.plugins",`))
+			listNil, _ := histFact(e.St, "nil", regexp.MustCompile(`^github\.com/spf13/cast\.ToSlice(@(?:[\w$]+·)?t\d+)?\(\(\*github\.com/spf13/viper\.Viper\)\.Get@(?:[\w$]+·)?t\d+\(\$0\.v,fmt\.Sprintf\("server%d\.plugins",`))
 			errN, _ := e.Ex.NilState(e.St, e.Ret.Results[1])
 			if v, _ := histFact(e.St, "nil", regexp.MustCompile(`protoVersionCheck\(\$1\)$`)); v == 0 {
 				continue
 			}
-			if regexp.MustCompile(`config\.parsePlugins(@t\d+)?\(.*ToSlice`).MatchString(e.Canon[0]) {
+			if regexp.MustCompile(`config\.parsePlugins(@(?:[\w$]+·)?t\d+)?\(.*ToSlice`).MatchString(e.Canon[0]) {
 				nS++
 				if listNil != 0 {
 					bad = append(bad, "plugins are parsed although the `plugins` value is missing or not a list")
@@ -364,11 +364,11 @@ func ruleCfgPlugins(c *Ctx, rule string) {
 					bad = append(bad, fmt.Sprintf("Load succeeds at %s without establishing that at least one of server4/server6 is configured", c.P.InstrPos(e.Ret)))
 				}
 				for _, v := range []string{"6", "4"} {
-					if ok, _ := histFact(e.St, "nil", regexp.MustCompile(`parseConfig@t\d+\(.*,`+v+`\)$`)); ok != 1 {
+					if ok, _ := histFact(e.St, "nil", regexp.MustCompile(`parseConfig@(?:[\w$]+·)?t\d+\(.*,`+v+`\)$`)); ok != 1 {
 						bad = append(bad, "Load succeeds without parseConfig("+v+") having succeeded")
 					}
 				}
-				if ok, _ := histFact(e.St, "nil", regexp.MustCompile(`ReadInConfig@t\d+\(`)); ok != 1 {
+				if ok, _ := histFact(e.St, "nil", regexp.MustCompile(`ReadInConfig@(?:[\w$]+·)?t\d+\(`)); ok != 1 {
 					bad = append(bad, "Load succeeds without the file having been read successfully")
 				}
 			case 0:
@@ -402,12 +402,12 @@ func ruleCfgPlugins(c *Ctx, rule string) {
 					if fa, ok := s.Addr.(*ssa.FieldAddr); ok && strings.HasPrefix(fieldName(fa), "Server") && ex.Canon(st, fa.X).S == "$0" {
 						stored = fieldName(fa)
 						if al, ok := s.Val.(*ssa.Alloc); ok {
-							pl, _ := st.ReadLocal("new@" + al.Name() + ".Plugins")
-							ad, _ := st.ReadLocal("new@" + al.Name() + ".Addresses")
-							if !regexp.MustCompile(`getPlugins(@t\d+)?\(\$0,\$1\)#0$`).MatchString(pl) {
+							pl, _ := st.ReadLocal("new@" + anm(al) + ".Plugins")
+							ad, _ := st.ReadLocal("new@" + anm(al) + ".Addresses")
+							if !regexp.MustCompile(`getPlugins(@(?:[\w$]+·)?t\d+)?\(\$0,\$1\)#0$`).MatchString(pl) {
 								bad = append(bad, "ServerConfig.Plugins is not getPlugins(ver)'s result: "+shortName(pl))
 							}
-							if !regexp.MustCompile(`parseListen(@t\d+)?\(\$0,\$1\)#0$`).MatchString(ad) {
+							if !regexp.MustCompile(`parseListen(@(?:[\w$]+·)?t\d+)?\(\$0,\$1\)#0$`).MatchString(ad) {
 								bad = append(bad, "ServerConfig.Addresses is not parseListen(ver)'s result: "+shortName(ad))
 							}
 						}
@@ -425,7 +425,7 @@ func ruleCfgPlugins(c *Ctx, rule string) {
 				if n, _ := ex.NilState(st, ret.Results[0]); n != 1 {
 					return
 				}
-				absent, _ := histFact(st, "nil", regexp.MustCompile(`Get@t\d+\(\$0\.v,fmt\.Sprintf\("server%d",`))
+				absent, _ := histFact(st, "nil", regexp.MustCompile(`Get@(?:[\w$]+·)?t\d+\(\$0\.v,fmt\.Sprintf\("server%d",`))
 				if absent == 1 {
 					return
 				}
